@@ -16,7 +16,10 @@ var (
 	litInts    = []string{"0", "1", "-7", "42", "2147483647", "-2147483648", "100"}
 	litFloats  = []string{"1.5", "-0.25", "6.02e23", "1E3", "0.0", "3.14159", "1e-9", "-2.5E+2"}
 	litPlain   = []string{`"plain"`, `""`, `"hello world"`, `"x"`, `"CamelCase"`, `"with, commas: and {braces} [brackets] $dollar @at #hash"`}
-	litEscapes = []string{`"with \"quotes\" and \\ backslash"`, `"tab\tnewline\nreturn\r"`, `"esc \u00e9\u4e2d done"`, `"slash \/ bs \b ff \f"`}
+	litEscapes = []string{`"with \"quotes\" and \\ backslash"`, `"tab\tnewline\nreturn\r"`, `"esc \u00e9\u4e2d done"`, `"slash \/ bs \b ff \f"`,
+		// an escaped backslash in front of every escape letter: any post-processing of the printed document that is not
+		// escape-aware changes the value
+		`"C:\\videos\\audio \\x41 \\u0041 \\n\\t\\r\\b\\f \\\" end"`, `"^\\d+\\.\\w*$"`}
 	litUnicode = []string{`"unicode é ü 日本語"`, `"emoji 😀 ok"`, `"ελληνικά"`, `"zero\u200Bwidth"`}
 	litBlock   = []string{`"""block "quoted" text"""`, `"""multi word block"""`, `"""esc \""" inside"""`}
 	litDates   = []string{`"2024-02-29"`, `"1999-12-31"`, `"2000-01-01"`}
